@@ -154,6 +154,11 @@ pub fn digest(sess: &Sess, probes: &ProbeSet, ans_hint: bool, reimport: &[String
         out.push(format!("ans: {}", o.result_text()));
     }
 
+    // everything else a front end can ask the session (listing, function and unit metadata,
+    // completions, base units): one hash line; the detailed lines are kept per thread so that a
+    // mismatch can be reported precisely (see `first_difference`)
+    out.push(env_line(sess));
+
     // re-import probes: importing the module (again) on a clone must have the same effect
     for m in reimport {
         let mut c = sess.clone();
@@ -162,6 +167,123 @@ pub fn digest(sess: &Sess, probes: &ProbeSet, ans_hint: bool, reimport: &[String
         out.push(format!("reimport {m}: {} names-hash={h:016x}", o.result_text()));
     }
     out
+}
+
+thread_local! {
+    static ENV_DETAIL: std::cell::RefCell<Vec<(u64, Vec<String>)>> = const { std::cell::RefCell::new(Vec::new()) };
+}
+
+/// Detailed, sorted lines of what the read-only front-end API reports about a session:
+/// `print_environment` (the `list` command), `functions()` (name, signature, description, url,
+/// examples), `unit_representations()` (base representation and metadata), `base_units()`,
+/// and the completion candidates. Internal ids (code sources) are left out; orders that come from
+/// hash maps are sorted.
+pub fn env_lines(sess: &Sess) -> Vec<String> {
+    let ctx = &sess.ctx;
+    let mut out: Vec<String> = vec![];
+    match crate::sess::trap(|| ctx.print_environment().to_string()) {
+        Ok(s) => {
+            let mut f = crate::rng::Fnv::default();
+            f.write_str(&s);
+            out.push(format!("listing-hash {:016x}", f.0));
+        }
+        Err(p) => out.push(format!("listing PANIC {p}")),
+    }
+    match crate::sess::trap(|| {
+        let mut v: Vec<String> = ctx
+            .functions()
+            .map(|f| {
+                format!(
+                    "function {} name={:?} sig={} desc={:?} url={:?} examples={:?}",
+                    f.fn_name, f.name, f.signature_str, f.description, f.url, f.examples
+                )
+            })
+            .collect();
+        v.sort();
+        v
+    }) {
+        Ok(v) => out.extend(v),
+        Err(p) => out.push(format!("functions() PANIC {p}")),
+    }
+    match crate::sess::trap(|| {
+        let mut v: Vec<String> = ctx
+            .unit_representations()
+            .map(|(name, (base, meta))| {
+                format!(
+                    "unit {name} base={base} type={} aliases={:?} name={:?} canonical={:?} url={:?} desc={:?} bin={} metric={} abbrev={}",
+                    meta.readable_type.to_string().trim(),
+                    meta.aliases,
+                    meta.name,
+                    meta.canonical_name,
+                    meta.url,
+                    meta.description,
+                    meta.binary_prefixes,
+                    meta.metric_prefixes,
+                    meta.is_abbreviation
+                )
+            })
+            .collect();
+        v.sort();
+        v
+    }) {
+        Ok(v) => out.extend(v),
+        Err(p) => out.push(format!("unit_representations() PANIC {p}")),
+    }
+    match crate::sess::trap(|| {
+        let mut v: Vec<String> = ctx.base_units().map(|s| s.to_string()).collect();
+        v.sort();
+        v.join(",")
+    }) {
+        Ok(s) => out.push(format!("base-units {s}")),
+        Err(p) => out.push(format!("base_units() PANIC {p}")),
+    }
+    match crate::sess::trap(|| {
+        let mut f = crate::rng::Fnv::default();
+        let mut n = 0usize;
+        for w in ctx.get_completions_for("", true) {
+            f.write_str(&w);
+            n += 1;
+        }
+        (n, f.0)
+    }) {
+        Ok((n, h)) => out.push(format!("completions n={n} hash={h:016x}")),
+        Err(p) => out.push(format!("get_completions_for PANIC {p}")),
+    }
+    out
+}
+
+pub fn env_line(sess: &Sess) -> String {
+    let lines = env_lines(sess);
+    let mut f = crate::rng::Fnv::default();
+    for l in &lines {
+        f.write_str(l);
+    }
+    let h = f.0;
+    ENV_DETAIL.with(|d| {
+        let mut d = d.borrow_mut();
+        if !d.iter().any(|(k, _)| *k == h) {
+            if d.len() >= 6 {
+                d.remove(0);
+            }
+            d.push((h, lines));
+        }
+    });
+    format!("env: {h:016x}")
+}
+
+fn env_detail_diff(x: &str, y: &str) -> Option<String> {
+    let hx = u64::from_str_radix(x.strip_prefix("env: ")?, 16).ok()?;
+    let hy = u64::from_str_radix(y.strip_prefix("env: ")?, 16).ok()?;
+    ENV_DETAIL.with(|d| {
+        let d = d.borrow();
+        let a = &d.iter().find(|(k, _)| *k == hx)?.1;
+        let b = &d.iter().find(|(k, _)| *k == hy)?.1;
+        let sa: BTreeSet<&String> = a.iter().collect();
+        let sb: BTreeSet<&String> = b.iter().collect();
+        let only_a: Vec<&&String> = sa.difference(&sb).take(2).collect();
+        let only_b: Vec<&&String> = sb.difference(&sa).take(2).collect();
+        Some(format!("environment differs: only-left={only_a:?} only-right={only_b:?}"))
+    })
 }
 
 fn is_builtin_word(s: &str) -> bool {
@@ -176,6 +298,9 @@ pub fn first_difference(a: &[String], b: &[String]) -> Option<String> {
         let x = a.get(i).map(|s| s.as_str()).unwrap_or("<missing>");
         let y = b.get(i).map(|s| s.as_str()).unwrap_or("<missing>");
         if x != y {
+            if let Some(d) = env_detail_diff(x, y) {
+                return Some(d);
+            }
             let short = |s: &str| -> String {
                 if s.len() > 400 {
                     // show the region around the first differing byte
